@@ -34,11 +34,20 @@ type verifClient struct {
 	// failAt >= 0: the connection breaks - the failAt-th write and every later one fail
 	failAt int
 	writes int
+	// opened is closed when the first bytes of the stream have been flushed to the browser
+	opened     chan struct{}
+	openedOnce bool
 }
 
 func (c *verifClient) Header() http.Header { return c.hdr }
 func (c *verifClient) WriteHeader(int)     {}
-func (c *verifClient) Flush()              {}
+func (c *verifClient) Flush() {
+	if !c.openedOnce && c.opened != nil && len(c.got) > 0 {
+		c.openedOnce = true
+		close(c.opened)
+		symYield() // the flush takes a moment: whoever waits for the open stream runs first
+	}
+}
 func (c *verifClient) Write(p []byte) (int, error) {
 	c.writes++
 	if c.failAt >= 0 && c.writes > c.failAt {
@@ -143,6 +152,23 @@ func VerifC19Delivery() {
 		other.disconnect()
 		close(other.gate)
 	}
+	symAssert(symQuiesce() == 0, "no goroutine is left blocked forever")
+}
+
+// VerifC19SubscribeRace: a browser counts as connected from the moment its event stream is open
+// (it has received the first bytes): a reload broadcast at any moment from then on reaches it,
+// also while its handler is still in the middle of subscribing.
+func VerifC19SubscribeRace() {
+	h := New()
+	c := verifNewClient(false)
+	c.opened = make(chan struct{})
+	c.serve(h)
+	<-c.opened // the stream is open on the browser's side
+	h.Send("message", "reload")
+	symQuiesce()
+	symCover("subscribed")
+	symAssert(c.received("reload"), "a browser whose stream is open receives the broadcast")
+	c.disconnect()
 	symAssert(symQuiesce() == 0, "no goroutine is left blocked forever")
 }
 
